@@ -134,3 +134,26 @@ PROPS["C08"] = {
         lane("TestExtended", "extended", 600, 3000, shards=8, must_classes=["msg:non-finite-float", "msg:out-of-range-date"]),
     ],
 }
+
+PROPS["C06"] = {
+    "pkg": "c06",
+    "level": "exploration",
+    "technique": "bounded-exhaustive shape x position x kind matrix + property-based hostile mutation of canonical documents (rapid) + deep-nesting ladder; totality oracle (no panic, returns under watchdog); native fuzz lane in thorough",
+    "level_text": ("A fixed schema carrying every J5 field kind in every position (plain, optional, array element, map value, oneof arm, exposed-oneof arm, "
+                   "flattened, nested) is attacked with a complete matrix of 27 JSON shapes per cell (null, wrong types, nested nulls, !type-only, two arms, "
+                   "duplicate keys...), a nesting ladder up to 12 000 levels (200 000 in thorough) on recursive types, huge tokens, rapid-generated "
+                   "mutations of canonical documents of generated schemas (subtree replacement, duplicate keys, truncation, stray bytes, invalid UTF-8) "
+                   "and arbitrary url.Values. Oracle: the call returns nil or an error, without panic, within a 20 s watchdog."),
+    "level_note": "The matrix is complete for the listed shapes/positions/kinds only; termination is observed (watchdog), not proven; a Go fatal error kills the worker and is attributed through the case journal.",
+    "rule": ("matrix: 19 kinds x 20 positions x 27 shapes on fixed.v1.All (+ root/containers); deep: 12 templates x depths {1..12000}; mutate: pgen Supported "
+             "schema, mgen message, canonical encoding, 1-3 tree mutations + optional byte mutation, 4 documents per message; query: 0-4 keys from field "
+             "names/dotted paths/any string with 0-3 values. Non-trivial: the input is not a document the encoder could have produced (matrix, deep>1, "
+             "mutated != canonical, >=1 query key). Distinct by hash of (target, input)."),
+    "assumptions": [],
+    "lanes": [
+        lane("TestMatrix", "matrix", 0, 0, norapid=True, must_classes=["pos:array-element", "pos:map-value", "pos:oneof-type-only"]),
+        lane("TestDeep", "deep", 0, 0, norapid=True),
+        lane("TestMutate", "mutate", 1200, 5000, shards=16),
+        lane("TestQuery", "query", 20000, 80000, shards=8),
+    ],
+}
